@@ -127,6 +127,16 @@ META = {
          "~ |Normal(avg_dur, std_dur)|, categories ~ Categorical(categories, weights); parameters measured with mean / std of the same sample or "
          "exactly those supplied.",
    note="Not decided: convergence of empirical statistics (statistical); NumPy's generators are assumed to implement the tagged laws."),
+ "C10": dict(
+   technique="contract-based deductive verification of the progress lemma of the windowed algorithm (generator contract of "
+             "Alignment.take_until_limit), of the fast job against the contracts of its two callees, and branch-structure (wiring) obligations "
+             "on the window-size plumbing; the loop composition of get_fast_alignment / get_first_window by a bounded stand-in with a stall detector",
+   level="Proved for all inputs: take_until_limit yields at least the leftmost unitary alignment of a non-empty alignment, each yielded value a "
+         "distinct member of it; the fast job returns a partition with the reported disorder on both branches (given the callee contracts) and "
+         "calls the exact algorithm exactly when best_window_size is infinite; measure_best_window_size stores a verdict on both branches. "
+         "Bounded (labelled): termination, partition, disorder >= optimum and == optimum for covering windows of get_fast_alignment itself.",
+   note="Two genuine defects repaired (non-termination on long overlapping units; stale finite window size). Assumed: get_fast_alignment's "
+        "contract at the job's call site, sorted() permutation model, solver contract."),
  "C19": dict(
    technique="contract-based deductive verification of corpus_from_reference (both argument forms) and false_neg_shuffle over the Continuum "
              "contracts, every random draw unconstrained within its support; the other perturbations by a bounded stand-in",
